@@ -1465,6 +1465,48 @@ theorem one_batch_confirm_per_oracle_and_token_address {α : Type} (tron : Bool)
   rw [hP] at a b
   rw [k1, k2, ← a, ← b, hp]
 
+/-- "submitted by that oracle's bridger", for SIGNED transactions: if the delivery of a transaction carrying a confirm is
+accepted (ante handler: signed by the account in the field the regenerated proto signer option names, of the OUTERMOST
+message; decoding; `ValidateBasic`; the regenerated handler), then the confirm was not wrapped in `MsgConfirm` (undecodable
+while `msgConfirmUnpacks = false` — so the wrapper's own, never-compared bridger field cannot stand in), passed
+`ValidateBasic`, and the transaction's signer IS the bridger of the oracle the external address is registered to -/
+theorem delivered_confirm_signed_by_oracles_bridger (E : VbEnv) (tron : Bool)
+    (recoverBy : String → List Nat → List Nat → Option String) (st st' : HState) (x : SignedTx)
+    (h : deliverTx E tron recoverBy st x = .ok st') :
+    x.wrapper = none ∧ validateBasic E x.t = none ∧
+    ∃ oracle r, st.byExternal.lookup x.t.m.external = some oracle ∧ st.oracles.lookup oracle = some r ∧
+      r.bridger = x.signer ∧ r.external = x.t.m.external ∧
+      confirmStep (recoverBy (validatorOf tron)) st x.t.m = .ok st' := by
+  unfold deliverTx at h
+  split at h
+  · cases h
+  · rename_i hs
+    have hs' : requiredSigner x = some x.signer := by simpa using hs
+    cases hw : x.wrapper with
+    | some b =>
+      rw [hw] at h
+      have : msgConfirmUnpacks = false := by decide
+      simp [this] at h
+    | none =>
+      rw [hw] at h
+      cases hx : txStep E tron recoverBy st x.t with
+      | error e => rw [hx] at h; cases h
+      | ok s2 =>
+        rw [hx] at h
+        cases h
+        obtain ⟨hv, hc⟩ := (tx_accept_iff E tron recoverBy st st' x.t).1 hx
+        obtain ⟨digest, sig, oracle, r, _, _, h3, h4, h5, h6, _, _, _⟩ := (confirm_accept_iff _ st st' x.t.m).1 hc
+        refine ⟨rfl, hv, oracle, r, h3, h4, ?_, h5, hc⟩
+        have hb : some x.t.m.bridger = some x.signer := by
+          rw [← hs']
+          unfold requiredSigner
+          rw [hw]
+          have : ∀ k, confirmSigners.lookup (msgTypeOf k) = some "bridger_address" := by
+            intro k; cases k <;> (simp only [msgTypeOf]; decide)
+          simp [this]
+        rw [h6]
+        exact Option.some.inj hb
+
 end MessageLayer
 
 /-! ## 16. (round 5) branches of the state: what is done on a DISCARDED branch (failed multi-message transaction, CheckTx,
@@ -1587,6 +1629,29 @@ example : ∃ st', txStep (envOf true exP (fun _ => true) (fun _ => true)) true 
     simp [envOf, addrValid, addrChecksOf, addrValidatorOf, List.lookup, tronAddrChecks, addrCheckFails, lenArg, exP]
     decide
   · simp [confirmStep, hasConfirm, exSt]
+
+/-- deliveries: accepted when signed by the oracle's bridger; a stranger's signature fails the ante check; the wrapper is
+undecodable -/
+example :
+    let E := envOf true exP (fun _ => true) (fun _ => true)
+    let rec_ : String → List Nat → List Nat → Option String := fun _ _ s => if s == [9] then some "0xAbC" else none
+    let t : TxConfirm := ⟨"tron", ⟨.batch "0xAbC" 3, "fx1bridger", "0xAbC", some [9]⟩⟩
+    (∃ st', deliverTx E true rec_ exSt ⟨"fx1bridger", none, t⟩ = .ok st') ∧
+    deliverTx E true rec_ exSt ⟨"fx1stranger", none, t⟩ = .error .ante ∧
+    deliverTx E true rec_ exSt ⟨"fx1stranger", some "fx1stranger", t⟩ = .error .undecodable := by
+  intro E rec_ t
+  have hx : txStep E true rec_ exSt t = .ok { exSt with confirms := [⟨.batch "0xAbC" 3, 1, "fx1bridger", "0xAbC", [9], [1, 2], ⟨"fx1bridger", "0xAbC"⟩⟩] } := by
+    refine (tx_accept_iff _ _ _ _ _ _).2 ⟨?_, ?_⟩
+    · rw [validate_basic_pass_iff]
+      simp [E, t, envOf, addrValid, addrChecksOf, addrValidatorOf, List.lookup, tronAddrChecks, addrCheckFails, lenArg, exP]
+      decide
+    · simp [t, rec_, confirmStep, hasConfirm, exSt]
+  have hs : confirmSigners.lookup "MsgConfirmBatch" = some "bridger_address" ∧ confirmSigners.lookup "MsgConfirm" = some "bridger_address" ∧
+      msgConfirmUnpacks = false := by decide
+  refine ⟨⟨{ exSt with confirms := [⟨.batch "0xAbC" 3, 1, "fx1bridger", "0xAbC", [9], [1, 2], ⟨"fx1bridger", "0xAbC"⟩⟩] }, ?_⟩, ?_, ?_⟩
+  · simp [deliverTx, requiredSigner, msgTypeOf, hs.1, hx, t]
+  · simp [deliverTx, requiredSigner, msgTypeOf, hs.1, t]
+  · simp [deliverTx, requiredSigner, hs.2.1, hs.2.2]
 
 /-- a history with a discarded branch on which ANOTHER object was stored and confirmed under key 7: afterwards key 7 holds the
 surviving object and its confirmation -/
